@@ -82,6 +82,26 @@ def parse_brackets(log):
     return elems, errors
 
 
+def own_tags_table(prog):
+    """element name -> its own tags as written (rows: the outline's tags followed by the tags of their Examples block)"""
+    own = {}
+    for f in prog["features"]:
+        own["F%d" % f["id"]] = list(f["tags"])
+        for it in f["items"]:
+            subs = [it]
+            if it["kind"] == "rule":
+                own["R%d" % it["id"]] = list(it["tags"])
+                subs = it["items"]
+            for x in subs:
+                if x["kind"] == "scenario":
+                    own["S%d" % x["id"]] = list(x["tags"])
+                else:
+                    for ei, ex in enumerate(x["examples"]):
+                        for r in range(ex["rows"]):
+                            own["O%d -- @%d.%d E%d" % (x["id"], ei + 1, r + 1, ex["id"])] = list(x["tags"]) + list(ex["tags"])
+    return own
+
+
 def impl_pair(case):
     """fault-free run and faulted run of the same program"""
     base = copy.deepcopy(case["prog"])
@@ -209,6 +229,13 @@ def oracle(case, obs):
             _els, errs = parse_brackets(o["log"])
             for e in errs[:2]:
                 out.append(("%s run: hook trace not well nested: %s" % (name, e), "hooks-not-nested"))
+            # one before_tag per own tag, in written order: feature / rule / scenario tags, rows: outline tags + their block's tags
+            own = own_tags_table(prog)
+            for el in _els:
+                if el["kind"] != "step" and el["key"] in own and el["tags"] != own[el["key"]]:
+                    out.append(("%s run: %s %s fired before_tag for %s, its own tags are %s" % (
+                        name, el["kind"], el["key"], el["tags"], own[el["key"]]), "tag-hooks-not-own-tags"))
+                    break
     if not cfg["faults"] or cfg["dry_run"]:
         return out
     # 2. the injected site
